@@ -134,6 +134,7 @@ type h1View struct {
 	everLeft bool // this observer has at some time shown the node as left
 	expiredOnce bool // the observer has forgotten the node at least once
 	leftSeenSet bool
+	leftMarkerVer uint64 // version of the left marker the observer holds
 	leftSeenAt  time.Time // when this observer first showed the node as left (since it last learnt it)
 }
 
@@ -886,8 +887,21 @@ func (w *h1World) checkView(o, x *h1Node, ns *NodeState) {
 	if ns.Left && ns.Expiry.IsZero() {
 		run.Fail("C11.left-expire", "left-without-deadline", "%s: shown as left but holds no removal deadline, so it would never be forgotten", tag)
 	}
-	if ns.Left && !pv.leftSeenSet {
-		pv.leftSeenSet, pv.leftSeenAt = true, time.Now()
+	if ns.Left {
+		// the removal deadline runs from the last departure announcement the
+		// observer applied: a departed node that is still up (Leave is
+		// synchronising, bounded by the grace period) may compact, which
+		// re-versions its left marker, and piko restarts the deadline when it
+		// applies the newer marker
+		mv := uint64(0)
+		for _, e := range ns.Entries {
+			if e.Internal && e.Key == leftKey {
+				mv = e.Version
+			}
+		}
+		if !pv.leftSeenSet || mv != pv.leftMarkerVer {
+			pv.leftSeenSet, pv.leftSeenAt, pv.leftMarkerVer = true, time.Now(), mv
+		}
 	}
 	if ns.Left {
 		if !x.left {
